@@ -36,7 +36,7 @@ VD_QUICK = ["float64", "int64", "bool", "datetime64[ns]"]
 VD_THOROUGH = VD_QUICK + ["float32", "timedelta64[ns]"]
 N_SHARDS = 4
 
-VAL_CONTAINERS = ["numpy", "numpy_strided", "numpy_offset", "numpy_readonly", "pandas", "pandas_arrow", "polars", "arrow", "arrow_chunked"]
+VAL_CONTAINERS = ["numpy", "numpy_strided", "numpy_offset", "pandas", "numpy", "numpy_readonly", "pandas_arrow", "polars", "arrow", "arrow_chunked", "numpy_offset"]
 KEY_CONTAINERS = ["numpy", "numpy_strided", "numpy_readonly", "pandas", "arrow_chunked", "polars"]
 FN_OPS = ["fn_ema", "fn_ema_grouped", "fn_group_sum", "fn_group_min", "fn_group_first", "fn_group_mean", "fn_cumsum", "fn_cummax", "fn_rolling_sum", "fn_rolling_max", "fn_shift"]
 
@@ -283,9 +283,11 @@ def _outcome(fn):
 
 
 def run_one(scen: Choices, sched: Choices, cls, cfg):
-    import pandas as pd
-    from groupby_lib.groupby.core import GroupBy
+    return execute(gen_scenario(scen, cls, cfg), sched, cls, cfg)
 
+
+def gen_scenario(scen: Choices, cls, cfg):
+    """The complete, JSON-able scenario of one run (everything but the schedule)."""
     vdtype, _shard = cls
     tier = cfg.get("tier", "quick")
     ds = gen.gen_dataset(scen, vdtype, tier, max_n=60, allow_multi=True)
@@ -333,7 +335,7 @@ def run_one(scen: Choices, sched: Choices, cls, cfg):
             step = {"kind": "fn", "op": gen_fn_op(scen, ds)}
         else:
             step = _failing(scen)
-        step["scribble"] = bool(scen.draw(2))
+        step["scribble"] = scen.chance(3, 4)
         steps.append(step)
         scen.end(b_)
     if not steps:
@@ -348,7 +350,21 @@ def run_one(scen: Choices, sched: Choices, cls, cfg):
         fault_step = cand[scen.draw(len(cand))]
         fault["k"] = min(fault["k"], 3)
 
-    rec = {"violations": [], "probes": [], "faults": [], "interleavings": [], "ticks": 0, "nontrivial": False, "n_pools": 0}
+    return {
+        "ds": ds, "sort": sort, "st": st, "key_cont": key_cont, "val_cont": val_cont, "cut_lens": cut_lens,
+        "mask_readonly": mask_readonly, "steps": steps, "fault": fault, "fault_step": fault_step,
+    }
+
+
+def execute(sc, sched: Choices, cls, cfg):
+    import pandas as pd
+    from groupby_lib.groupby.core import GroupBy
+
+    vdtype, _shard = cls
+    ds, sort, st, key_cont, val_cont, cut_lens = sc["ds"], sc["sort"], sc["st"], sc["key_cont"], sc["val_cont"], sc["cut_lens"]
+    mask_readonly, steps, fault, fault_step = sc["mask_readonly"], sc["steps"], sc["fault"], sc["fault_step"]
+    n = ds["n"]
+    rec = {"violations": [], "probes": [], "faults": [], "interleavings": [], "ticks": 0, "nontrivial": False, "n_pools": 0, "scenario": sc}
     probes = set()
     key_kind = ds["key_kinds"][0] if len(ds["key_kinds"]) == 1 else "multi"
 
@@ -370,6 +386,11 @@ def run_one(scen: Choices, sched: Choices, cls, cfg):
             if arr.dtype.kind == "M" and how in ("arrow_chunked", "polars") and any(c < 0 for c in ds["key_codes"][k]):
                 how = "numpy"
             owned_keys.append(own_array(arr, how, lens=[x for x in cut_lens if x > 0] or [n]))
+    # int64.min is kept out of int64 columns when a summation-order operation is in the
+    # history (container/route-dependent null convention, see ops.sanitize)
+    if any(s_["op"]["op"] in ops.SUM_LIKE for s_ in steps):
+        ds = dict(ds, cols=[dict(c, idx=[0 if i == 1 else i for i in c["idx"]]) if c["dtype"] == "int64" else c for c in ds["cols"]])
+    dso = ds
     owned_vals = []
     for c, col in enumerate(ds["cols"]):
         owned_vals.append(own_array(gen.col_array(col), val_cont[c], name=None, lens=cut_lens))
@@ -433,6 +454,8 @@ def run_one(scen: Choices, sched: Choices, cls, cfg):
     def check_inputs(check, opname, extra=None):
         fp = fingerprints(all_owned)
         if fp != fp0:
+            # report once: later steps are judged against the buffers as they are now
+            changed_now = list(fp)
             which = [i for i, (a, b) in enumerate(zip(fp0, fp)) if a != b]
             names = [("key%d" % i if i < len(owned_keys) else "col%d" % (i - len(owned_keys))) + ":" + all_owned[i].container for i in which]
             rec["violations"].append(
@@ -443,13 +466,14 @@ def run_one(scen: Choices, sched: Choices, cls, cfg):
                     "actual": f"changed: {names}",
                 }
             )
+            fp0[:] = changed_now
             return False
         return True
 
     if gb is None:
         check_inputs("inputs_unchanged", "constructor")
         rec["probes"] = sorted(probes | {"constructor_raises"})
-        rec["digest"] = hashlib.blake2b(repr((cls[0], ds, key_cont, val_cont, st, steps)).encode(), digest_size=8).hexdigest()
+        rec["digest"] = gen.digest((cls[0], sc))
         rec["events"] = rec["result"] = rec["digest"]
         if cfg.get("want_sample"):
             rec["sample"] = {"note": f"constructor raises {type(ctor_err).__name__}: {ctor_err}", "key_containers": key_cont}
@@ -471,7 +495,6 @@ def run_one(scen: Choices, sched: Choices, cls, cfg):
         kind = step["kind"]
         op = step["op"]
         opname = op["op"] + ("_transform" if op.get("transform") else "")
-        dso = ds
         mask_desc = ops.op_mask(op)
         mask = gen.build_mask(ds, mask_desc)
         owned_mask = None
@@ -568,7 +591,7 @@ def run_one(scen: Choices, sched: Choices, cls, cfg):
     rec["probes"] = sorted(probes)
     zero_copy = "zero_copy_container" in probes
     rec["nontrivial"] = bool(zero_copy and max_tasks >= 2 and scribbled_and_repeated)
-    rec["digest"] = hashlib.blake2b(repr((cls[0], ds, key_cont, val_cont, st, steps, fault, fault_step, cut_lens)).encode(), digest_size=8).hexdigest()
+    rec["digest"] = gen.digest((cls[0], sc))
     rec["events"] = hashlib.blake2b(repr(events).encode(), digest_size=8).hexdigest()
     rec["result"] = hashlib.blake2b(repr(results).encode(), digest_size=8).hexdigest()
     if cfg.get("want_sample"):
